@@ -145,3 +145,125 @@ def check_c01(run):
                       "@name/@id/@desc/@sal) and values (boundaries of every width, 2^53+-1, 2^63-1, -2^63, 2^64-1, negatives, near pairs); "
                       "a shape is distinct by its token string",
                       explanation="states = operator strings on which the parser meta-properties were evaluated; transitions = parsed shapes")
+
+
+# ------------------------------------------------------------------ C20
+def check_c20(run):
+    rng = random.Random(run.seed)
+    quick = run.tier == "quick"
+    d = run.spec_dir("gen-lines")
+    open(os.path.join(d, "g.cfg"), "w").write(
+        "SPECIFICATION GSpec\nCONSTANTS\n  GLead = {%s}\n  GPre = {%s}\n  GFill = {%s}\n" % (
+            ("0, 2", "0, 2", "0, 2") if quick else ("0, 1, 2, 3", "0, 1, 2", "0, 1, 2")))
+    r = run.tlc("LangLines.tla", "g.cfg", workers=4, cwd=d, timeout=900)
+    if not r.ok:
+        raise Infra("LangLines failed:\n" + r.tail(30))
+    cases = read_ndjson(os.path.join(d, "gen.ndjson"))
+    run.cov["states"] = len(cases)
+    run.cov["transitions"] = len(cases)
+    sessions = [dict(c, id=i + 1) for i, c in enumerate(cases)]
+    binary = run.go_build("langdrv")
+    sp = os.path.join(run.scratch, "sessions-lines.ndjson")
+    tp = os.path.join(run.scratch, "traces-lines.ndjson")
+    write_ndjson(sp, sessions)
+    by_id = {s["id"]: s for s in sessions}
+    run_driver(run, binary, sp, tp)
+    ns, nev, rejected = validate_traces(run, "LangLinesTrace.tla", "LangLinesTrace.cfg", tp)
+    ran = skipped = 0
+    per_class = {}
+    for e in read_ndjson(tp):
+        if e.get("ev") == "lcase":
+            ran += 1
+            per_class[e["class"]] = per_class.get(e["class"], 0) + 1
+            if len(run.samples) < 2 and e["cited"]:
+                run.samples.append({"text": e["text"], "fault_line": e["fault"], "cited": e["cited"], "class": e["class"]})
+        elif e.get("ev") == "lskip":
+            skipped += 1
+    run.log("lines: %d layouts run, %d not in the grammar (skipped), %d rejected" % (ran, skipped, len(rejected)))
+    if ran < len(cases) // 2:
+        raise Infra("more than half of the layouts do not compile: generator problem")
+    for sid, evs, idx in rejected:
+        ev = evs[idx] if idx is not None else {}
+        if ev.get("ev") == "crash":
+            run.violation("lines:crash", {"session": by_id.get(sid), "trace": evs}, "layout crashed the process")
+            continue
+        sym = "panic" if ev.get("panic") else ("noerror" if not ev.get("err") else
+                                               ("nocite" if not ev.get("cited") else "wrongline"))
+        key = "lines:%s:%s" % (ev.get("class"), sym)
+        run.violation(key, {"session": by_id.get(sid), "trace": evs},
+                      "fault class %s in %s: the failing construct starts on line %s (statement on line %s), the error cites %s: %s\n%s" % (
+                          ev.get("class"), by_id.get(sid, {}).get("encl"), ev.get("fault"), ev.get("stmt"), ev.get("cited"),
+                          (ev.get("msg") or "")[:200], ev.get("text", "")))
+    run.cov["evaluations"] = ran
+    run.cov["distinct_nontrivial"] = ran
+    run.cov["per_class"] = per_class
+    run.cov["layouts_outside_grammar"] = skipped
+    run.assumptions += ["a cited position is recognised by the pattern `line N, column`", "`always` classes: arithmetic faults, comparison and "
+                        "logic type faults, failing function / method / three-level calls, failing stores; for the other classes a position is "
+                        "optional but must be right when given"]
+    return run.finish("model_checking",
+                      "layouts = leading blank/comment lines x preceding rules x filler statements x enclosing statement kind (top level, if, "
+                      "else-if, else, for, forRange, if inside for, conc) x 25 faulty statements of 10 fault classes x one-line / two-line "
+                      "layout, plus faults inside if / else-if / for conditions; the specification computes the line of the failing construct "
+                      "from the layout; enumerated completely by TLC (3440 quick, 22 000 thorough); distinct = layouts that compile",
+                      exhaustive=True,
+                      explanation="states = layouts whose line arithmetic was checked (LayoutSane) and generated")
+
+
+# ------------------------------------------------------------------ C03
+def check_c03(run):
+    quick = run.tier == "quick"
+    d = run.spec_dir("gen-data")
+    r = run.tlc("LangData.tla", "LangData.cfg", workers=2, cwd=d, timeout=600)
+    if not r.ok:
+        raise Infra("LangData failed:\n" + r.tail(30))
+    cells = read_ndjson(os.path.join(d, "gen.ndjson"))
+    run.cov["states"] = len(cells)
+    run.cov["transitions"] = len(cells)
+    draws = 3 if quick else 24
+    sessions = [dict(c, id=i + 1, seed=run.seed * 104729 + i, draws=draws) for i, c in enumerate(cells)]
+    binary = run.go_build("datadrv")
+    sp = os.path.join(run.scratch, "sessions-data.ndjson")
+    tp = os.path.join(run.scratch, "out-data.ndjson")
+    write_ndjson(sp, sessions)
+    run_driver(run, binary, sp, tp)
+    n = ok = unspec = skipped = 0
+    kinds = {}
+    for e in read_ndjson(tp):
+        if e.get("ev") == "crash":
+            run.violation("data:crash", {"event": e}, "a cell crashed the process: %s" % (e.get("stderr") or "")[:200])
+        if e.get("ev") != "case":
+            continue
+        n += 1
+        if e.get("skipped"):
+            if e["skipped"].startswith("unspecified"):
+                unspec += 1
+            else:
+                skipped += 1
+            continue
+        if e.get("ok"):
+            ok += 1
+            continue
+        c = e.get("cell", {})
+        if e.get("kind") == "compile":
+            raise Infra("a generated cell does not compile: %s\n%s" % (e.get("why"), e.get("text")))
+        kinds[e.get("kind")] = kinds.get(e.get("kind"), 0) + 1
+        run.violation("data:%s:%s:%s" % (c.get("what"), c.get("path"), e.get("kind")), {"case": e},
+                      "%s through %s into/as %s from %s: %s - %s\n%s" % (c.get("what"), c.get("path"), c.get("kind"), c.get("src"),
+                                                                      e.get("kind"), e.get("why"), e.get("text")))
+    run.log("data: %d executions, %d conform, %d in unspecified cells (contained), %d not applicable, mismatches %s" % (n, ok, unspec, skipped, kinds))
+    run.samples.append({"cell": cells[0], "note": "each cell is run with %d draws of representable values" % draws})
+    run.cov["evaluations"] = n
+    run.cov["distinct_nontrivial"] = len([c for c in cells if c["outcome"] == "conv"])
+    run.cov["traces_validated_against_impl"] = ok
+    run.cov["unspecified_cells_contained"] = unspec
+    run.assumptions += ["values are drawn representable in source and target kind (integral, within both ranges; float32-exact fractions)",
+                        "`everything else untouched` is checked on a snapshot of the whole host object graph (struct, nested struct, "
+                        "maps, slice, array, pointer scalar)"]
+    return run.finish("model_checking",
+                      "cells = {store, read, read of a missing key, call, shadowing} x access-path form (struct field one and two levels deep, "
+                      "pointer scalar, map with string / int / variable key, slice with literal / variable index, array through pointer, map and "
+                      "slice held in a struct) x 14 target kinds x 8 source kinds, with the promised outcome, enumerated completely by TLC "
+                      "(1896 cells); every cell is executed with 3 (thorough 24) value draws; non-trivial = cells with a promise (conv)",
+                      exhaustive=True,
+                      explanation="states = cells of the matrix generated (and sanity-checked) by TLC")
